@@ -111,7 +111,11 @@ func imgpath2dDMRead(img image.Image) (out string, format gozxing.BarcodeFormat)
 		}
 		format = res.GetBarcodeFormat()
 		h, _ := c02Latin1(res.GetText())
-		return h
+		sm := "?"
+		if v, ok := res.GetResultMetadata()[gozxing.ResultMetadataType_SYMBOLOGY_IDENTIFIER].(string); ok && strings.HasPrefix(v, "]d") {
+			sm = v[2:]
+		}
+		return h + "|m=" + sm
 	})
 	return
 }
@@ -198,7 +202,7 @@ func imgpath2dDMCase(c *Ctx, r *Rng, text []byte, hints c02Hints, nSizes int) {
 		if W < 40 || H < 40 {
 			class = "global"
 		}
-		ok := out == wantHex && format == gozxing.BarcodeFormat_DATA_MATRIX
+		ok := strings.HasPrefix(out, wantHex+"|m=") && format == gozxing.BarcodeFormat_DATA_MATRIX
 		c.Oracle("img2d-dm-image", ok, "img2d-dm-image-roundtrip:"+class+":"+imgpath2dHead(out), in,
 			fmt.Sprintf("symbol %dx%d rendered %dx%d, Reader.Decode(PURE_BARCODE) gave %s (format %v), want %s", mw, mh, W, H, c02Trunc(out), format, c02Trunc(wantHex)))
 		c.Note("img2d dm binariser " + class + " " + imgpath2dHead(out))
